@@ -62,23 +62,55 @@ def judge_tree(sess, tree):
         else:
             what = br.get("e") or ""
         return "no-braille", [], "get_braille -> %s: %s" % (br["r"], what), res
-    # operands that survived canonicalization (a loss inside set_mathml is C01's to report, not this property's)
-    canon = B.fold_digits(re.sub(r"<[^>]*>", " ", sm["v"]))       # a typeface turns digits into mathematical digits: the same number
+    lost, detail = lost_in(code, tree, sm["v"], br["v"])
+    if lost:
+        return "lost-operand", lost, detail, res
+    return None, [], "", res
+
+
+def lost_in(code, tree, canonical, braille):
+    """literals of the tree that survived canonicalization (a loss inside set_mathml is C01's to report) and are missing in the braille"""
+    canon = B.fold_digits(re.sub(r"<[^>]*>", " ", canonical))       # a typeface turns digits into mathematical digits: the same number
     lits = []
     for lit in B.tree_literals(tree):
         if lits.count(lit) < B.count_verbatim(lit, canon):
             lits.append(lit)
     lost = []
     for lit in sorted(set(lits)):
-        n = occurrences(code, lit, br["v"])
+        n = occurrences(code, lit, braille)
         if n is None:
             continue                                            # the published table has no cell for this mark: not judged
         if n < lits.count(lit):
             lost.append(lit)
     if lost:
         shown = ["%s=%s%s" % (l, B.literal_cells(code, l) or l, "|" + B.literal_cells(code, l, True) if B.CODES[code].get("dropped") else "") for l in lost]
-        return "lost-operand", lost, "braille %r lacks %s" % (br["v"][:500], shown), res
-    return None, [], "", res
+        return lost, "braille %r lacks %s" % (braille[:500], shown)
+    return [], ""
+
+
+def carry_ops(cfg):
+    """operations that change only the braille code (and its own preferences) of a running session: the language, and with it the stored
+    canonical expression, stay as they are"""
+    return [op for op in B.switch_ops(cfg) if op[1] != "Language"]
+
+
+def carried_over(prev_cfg, cfg, tree):
+    """[set_mathml under prev_cfg's code, get_braille, switch the code only, get_braille again WITHOUT a new set_mathml] in a brand-new
+    session, and the same code reached directly: returns (lost after the switch, lost when reached directly, detail)"""
+    with B.Session(prev_cfg) as a:
+        a.ensure()
+        r = a.batch([("set_mathml", tree.xml()), ("get_braille", "")] + carry_ops(cfg) + [("get_braille", "")], timeout=60)
+    if r is None or r[0]["r"] != "ok" or r[-1]["r"] != "ok":
+        return None
+    lost, detail = lost_in(cfg["code"], tree, r[0]["v"], r[-1]["v"])
+    direct_cfg = dict(cfg, lang=prev_cfg["lang"])
+    with B.Session(direct_cfg) as b:
+        b.ensure()
+        r2 = b.batch([("set_mathml", tree.xml()), ("get_braille", "")], timeout=60)
+    if r2 is None or r2[0]["r"] != "ok" or r2[1]["r"] != "ok":
+        return None
+    lost2, _ = lost_in(cfg["code"], tree, r2[0]["v"], r2[1]["v"])
+    return lost, lost2, detail
 
 
 def minimise(cfg, tree, kind, lost=None):
@@ -393,19 +425,54 @@ def report_history(st, seen_pre, history, cfg, tree, kind, lost, detail):
                                         "session used %s, then %s: minimal witness %s | %s" % (history_sig(hist), B.cfg_sig(cfg), small.xml(), detail3[:600])))
 
 
+def report_carry(st, prev_cfg, cfg, tree):
+    """a loss seen after a code switch without set_mathml: confirmed in brand-new sessions, blamed on the switch only when the same code
+    reached directly renders the operands, then shrunk"""
+    def fails(t):
+        c = carried_over(prev_cfg, cfg, t)
+        return c is not None and bool(c[0]) and not c[1]
+    if not fails(tree):
+        st.count("carried_over_losses_not_confirmed_or_also_lost_directly")
+        return
+    small = shrink.shrink_tree(tree, fails, budget=60)
+    c = carried_over(prev_cfg, cfg, small)
+    sig = "lost-operand | carried over %s > %s without set_mathml | %s" % (prev_cfg["code"], cfg["code"], shrink.abstract_shape(small))
+    st.violations.append(core.violation("lost-operand-carried-over", sig, {"carry": {"prev": prev_cfg, "cfg": cfg}, "cfg": cfg, "mathml": small.xml()},
+                                        "the expression was set and brailled as %s, the code was switched to %s and get_braille asked again without set_mathml: %s" % (
+                                            prev_cfg["code"], cfg["code"], (c[2] if c else "")[:600])))
+
+
 def run_tour(st, rng, tour, per_step, deadline, seen_pre):
     sess = B.Session(tour[0])
     history = []
+    last = None
     try:
         sess.ensure()
         for step, cfg in enumerate(tour):
             if time.time() > deadline:
                 st.count("stopped_by_time_budget")
                 break
+            if step and last is not None and B.CODES.get(cfg["code"]) is not None:
+                # the expression of the previous step is still set: the new code must render ITS operands too (no new set_mathml)
+                ltree, lcanon = last
+                rr = sess.batch(carry_ops(cfg) + [("get_braille", "")], timeout=60)
+                if rr is not None and rr[-1]["r"] == "ok":
+                    st.evaluations += 1
+                    st.count("evaluations_carried_over_a_code_switch")
+                    st.nontrivial.add(core.h16("carry|%s|%s|%s" % (history[-1]["code"], cfg["code"], ltree.shape())))
+                    lost, detail = lost_in(cfg["code"], ltree, lcanon, rr[-1]["v"])
+                    if lost:
+                        pre = ("carry", history[-1]["code"], cfg["code"])
+                        if pre in seen_pre:
+                            st.count("carried_over_losses_not_minimised")
+                        else:
+                            seen_pre.add(pre)
+                            report_carry(st, history[-1], cfg, ltree)
             if step and not switch_to(sess, cfg):
                 st.inconclusive += 1
                 st.count("switch_failed")
                 break
+            last = None
             name = B.cfg_sig(cfg)
             if history:
                 st.add("switches", "%s>%s" % (history[-1]["code"], cfg["code"]))
@@ -418,6 +485,8 @@ def run_tour(st, rng, tour, per_step, deadline, seen_pre):
                 st.evaluations += 1
                 st.count("evaluations_after_switch" if history else "evaluations_first_configuration")
                 observe(st, cfg, name, tree, lits, res, i if history else 1, tag=" after " + history[-1]["code"] if history else "")
+                if kind is None and res is not None and res[0]["r"] == "ok":
+                    last = (tree, res[0]["v"])
                 if kind is None or kind == "crash":
                     continue
                 alone = B.Session(cfg)
@@ -583,6 +652,12 @@ def replay(witness):
     cfg = witness["cfg"]
     tree = B.from_xml(witness["mathml"])
     history = witness.get("history")
+    if witness.get("carry"):
+        c = carried_over(witness["carry"]["prev"], witness["carry"]["cfg"], tree)
+        if c is None or not c[0] or c[1]:
+            return []
+        sig = "lost-operand | carried over %s > %s without set_mathml | %s" % (witness["carry"]["prev"]["code"], cfg["code"], shrink.abstract_shape(tree))
+        return [core.violation("lost-operand-carried-over", sig, witness, c[2][:700])]
     if history:
         kind, lost, detail, res = judge_with_history(history, cfg, tree)
         if kind in (None, "crash"):
